@@ -38,7 +38,30 @@ Example C08_examples : forall q c t,
 Proof. intros. cbn. rewrite Nat.eqb_refl, bytes_eqb_refl. cbn. auto. Qed.
 End C08.
 
+(* ---- the same for the code as TRANSLATED from the Python source on every run (harness/pytrans3.py -> BrokerGen.v):
+   run_src is the event loop with the translated Server.subscribe/unsubscribe/publish and Connection.on_publish/
+   on_subscribe/on_unsubscribe/authenticate/connection_lost/message_received plugged in; BrokerGenRun.run_src_eq proves it
+   equal to the model.  These theorems rely on functional_extensionality_dep (Coq standard library) and nothing else. *)
+From HP Require Import PyBroker BrokerGen BrokerGenEq BrokerGenRun BrokerGenProps.
+Theorem C08_src_run_is_model : forall bname store async_store h, run_src bname store async_store h = run bname store async_store h.
+Proof. exact run_src_eq. Qed.
+Theorem C08_src_follows_last_op : forall bname store async_store h q c, memc c (active (conns (run_src bname store async_store h) q)) = holds (alog (run_src bname store async_store h)) q c.
+Proof. exact src_follows_last_op. Qed.
+Theorem C08_src_registry : forall bname store async_store h, (forall c, NoDup (subs (run_src bname store async_store h) c)) /\
+  (forall q, NoDup (active (conns (run_src bname store async_store h) q))) /\
+  (forall q c, In q (subs (run_src bname store async_store h) c) <-> In c (active (conns (run_src bname store async_store h) q))).
+Proof. exact src_registry_nodup. Qed.
+Theorem C08_src_subscribe_idempotent : forall q c s, memc c (active (conns s q)) = true -> Server_subscribe q c s = BOk false s.
+Proof. exact src_subscribe_idempotent. Qed.
+Theorem C08_src_unsubscribe_absent : forall q c s, memc c (active (conns s q)) = false -> Server_unsubscribe q c s = BOk false s.
+Proof. exact src_unsubscribe_absent. Qed.
+
 Print Assumptions C08_follows_last_op.
 Print Assumptions C08_registry.
 Print Assumptions C08_delivery_rule.
 Print Assumptions C08_refines.
+Print Assumptions C08_src_run_is_model.
+Print Assumptions C08_src_follows_last_op.
+Print Assumptions C08_src_registry.
+Print Assumptions C08_src_subscribe_idempotent.
+Print Assumptions C08_src_unsubscribe_absent.
